@@ -4,6 +4,7 @@ A case is a program over histogram registers:
 
     ["new", r, cap]  ["upd", r, value, count]  ["add", a, b]  ["merge", a, b]
     ["bulk", r, [values...], "f8"|"i8"]  ["dl", r, s]   (s := load(**r.dump()))
+    ["ld2", r, s, t]   (d := r.dump(); s := load(**d); t := load(**d) — one dump loaded twice)
 
 run in mode "f" (the code as shipped: numpy.float64 caster, values are floats) or in mode "q"
 (exact arithmetic: the module's `_caster` patched to the identity, values are Fractions, the dump
@@ -11,7 +12,8 @@ dtype replaced by `object`).  Three things are compared:
 
 * oracle: the property's clauses evaluated on the implementation's own state after every
   operation (order, capacity, mass, bounds, mean, dump/load, and equality with a Python mirror of
-  the reference algorithm while no tie occurred);
+  the reference algorithm while no tie occurred); what is exactly open finding K01 (see `k01_detail`)
+  is recorded and the run goes on, so the operations after it are still judged;
 * correspondence: implementation vs. the Lean faithful machine (bit-for-bit in "f" until a dump
   turns bins into float128, exactly in "q");
 * infrastructure: Lean reference machine vs. the Python mirror (implementation out of the
@@ -48,6 +50,8 @@ def vin(mode, x):
         if isinstance(x, list):
             return Fraction(x[0], x[1])
         return Fraction(x)
+    if isinstance(x, int) and not isinstance(x, bool):
+        return x  # update(h, 5): a Python int is a legal value; the stored centre is _caster(5)
     return float(x)
 
 
@@ -185,6 +189,12 @@ class Ledger:
         self.f128 = False  # a dump() turned the bins into numpy.float128
         self.loaded_with = None  # number of bins at load time
         self.cap = cap
+        # open finding C13-K01, exactly as the unchanged tree behaves: a register loaded with more bins than load()'s
+        # limit stays above the limit *until the first update that inserts a bin* (that update's _trim loops back to the
+        # limit); exact-hit / in-place updates keep it there and make it differ from the reference (which trims at once).
+        self.over_open = False  # loaded above the limit and no bin has been inserted since
+        self.ref_excused = False  # a non-inserting update ran while above the limit: reference divergence is K01
+        self.excuse = None  # (loaded_with, limit) of the register whose K01 episode excuses the reference clause
 
     def copy(self):
         l = Ledger(self.cap)
@@ -211,7 +221,62 @@ class Ledger:
             self.see(o.hi)
         self.scale = max(self.scale, o.scale)
         self.f128 = self.f128 or o.f128
+        if o.ref_excused and not self.ref_excused:
+            self.ref_excused, self.excuse = True, o.excuse
         self.bare = self.bare or o.bare
+
+
+# --------------------------------------------------------------------------- open finding K01, observed on the implementation
+
+
+class WatchedBins(list):
+    """The bin list of a register loaded above its limit: counts `insert` / `append`, i.e. the updates that put a
+    new bin into the histogram (exact-hit and in-place updates only assign to an existing position).  If a refactor
+    replaces the list object the count is lost and the register simply stays 'not known to have inserted' — the
+    looser reading of K01, never an alarm."""
+
+    ins = 0
+
+    def insert(self, i, x):
+        self.ins += 1
+        return list.insert(self, i, x)
+
+    def append(self, x):
+        self.ins += 1
+        return list.append(self, x)
+
+
+def watch(h):
+    if not isinstance(h.bins, WatchedBins):
+        w = WatchedBins(h.bins)
+        h.bins = w
+    return h.bins.ins
+
+
+def inserted_since(h, n0):
+    """True / False, or None when the watched list was replaced (not observable)."""
+    if not isinstance(h.bins, WatchedBins):
+        return None
+    return h.bins.ins > n0
+
+
+CENTRE_OUTSIDE = "bounds: a bin centre lies outside [min, max]"
+
+
+def k01_detail(kind, d):
+    """Is this failure exactly what the unchanged tree does because load() forgets the configured maximum?"""
+    if not isinstance(d, dict):
+        return False
+    lw, lim = d.get("loaded_with"), d.get("limit")
+    if lw is None or lim is None or not lw > lim:
+        return False
+    if kind == "capacity":
+        # above the limit only until the first inserting update after the load; until then the bins are the loaded ones
+        return d.get("inserted_since_load") is False and d.get("bins") == lw
+    if kind == "reference":
+        # only after an exact-hit / in-place update ran while the register was above the limit
+        return d.get("noninserting_update_above_limit") is True
+    return False
 
 
 # --------------------------------------------------------------------------- running a program
@@ -253,15 +318,23 @@ def snap_ref(mode, r):
     return bins, (None if r.min is None else vwire(mode, r.min)), (None if r.max is None else vwire(mode, r.max))
 
 
-def check_state(mode, h, L, op_kind, after_load=False):
-    """The property's clauses on one implementation histogram. Returns (clause, detail) or None."""
+def check_state(mode, h, L, op_kind, known):
+    """The property's clauses on one implementation histogram. Returns (clause, detail) or None; what is exactly the
+    open finding K01 is appended to `known` and the remaining clauses are still judged."""
     bins = h.bins
-    vals = [vexact(v) for v, _ in bins]
+    # exact arithmetic where the clause is exact; in float mode order is judged on the stored numbers themselves and
+    # only the two outer centres are converted (the mean is compared at a tolerance, so it is evaluated in floats)
+    vals = [vexact(v) for v, _ in bins] if mode == "q" else [v for v, _ in bins]
     for i in range(len(vals) - 1):
         if not vals[i] < vals[i + 1]:
             return "order: bins are not strictly increasing", {"at": i}
-    if not after_load and len(bins) > h._bin_count:
-        return "capacity: more bins than the configured maximum", {"bins": len(bins), "limit": int(h._bin_count), "loaded_with": L.loaded_with}
+    if len(bins) > h._bin_count:
+        d = {"bins": len(bins), "limit": int(h._bin_count), "loaded_with": L.loaded_with,
+             "inserted_since_load": None if L.loaded_with is None else (not L.over_open)}
+        if L.over_open and k01_detail("capacity", d):
+            known.append(("capacity: more bins than the configured maximum", d))
+        else:
+            return "capacity: more bins than the configured maximum", d
     if any(not (f > 0) for _, f in bins):
         return "mass: a bin has a non-positive count", None
     total = sum(int(f) for _, f in bins)
@@ -278,15 +351,23 @@ def check_state(mode, h, L, op_kind, after_load=False):
     elif mn != L.lo or mx != L.hi:
         return "bounds: reported minimum/maximum are not those of the inserted values", {
             "min": float(mn), "max": float(mx), "true": [float(L.lo), float(L.hi)]}
-    if vals and not (mn <= vals[0] and vals[-1] <= mx):
-        return "bounds: a bin centre lies outside [min, max]", {"min": float(mn), "max": float(mx), "first": float(vals[0]), "last": float(vals[-1])}
-    mean_b = sum(v * int(f) for v, (_, f) in zip(vals, bins)) / total
+    if vals:
+        first, last = vexact(vals[0]), vexact(vals[-1])
+        if not (mn <= first and last <= mx):
+            exc = max(mn - first, last - mx, Fraction(0))
+            ref = max(abs(first), abs(last), abs(mn), abs(mx))
+            return CENTRE_OUTSIDE, {"min": float(mn), "max": float(mx), "first": float(first), "last": float(last),
+                                    "float128_bins": bool(mode == "f" and L.f128), "relative_excess": float(exc / ref) if ref else None}
     mean_t = L.wsum / L.weight
     if mode == "q":
+        mean_b = sum(v * int(f) for v, (_, f) in zip(vals, bins)) / total
         if mean_b != mean_t:
             return "mean: weighted mean of the bins differs from the true mean", {"bins": str(mean_b), "true": str(mean_t)}
-    elif abs(mean_b - mean_t) > Fraction(TOL) * max(L.scale, abs(mean_t)):
-        return "mean: weighted mean of the bins differs from the true mean", {"bins": float(mean_b), "true": float(mean_t)}
+    else:
+        mean_b = math.fsum(float(v) * int(f) for v, f in bins) / total
+        mt = float(mean_t)
+        if not abs(mean_b - mt) <= TOL * max(float(L.scale), abs(mt)):
+            return "mean: weighted mean of the bins differs from the true mean", {"bins": mean_b, "true": mt}
     return None
 
 
@@ -315,6 +396,8 @@ def same_val(mode, v1, v2, loose=False):
 class Outcome:
     def __init__(self):
         self.fail = None  # (clause, detail, step)
+        self.known = []  # (clause, detail, step): failures that are exactly open finding K01; the run goes on
+        self.hits = []
         self.snaps = []  # (step, reg, impl snapshot, ledger flags)
         self.model_ops = []
         self.outs = []  # per op: "ok" | ["err", class]
@@ -331,13 +414,16 @@ def run_impl(case, keep=False):
     every = case.get("snap_every", 1)
     factor = gen_const("distogram.bulk_factor", 5)
     out = Outcome()
+    ctx_hits = out.hits
     H, L, R = out.hists, out.ledgers, out.refs
     with Patched(mode) as D:
         for step, op in enumerate(prog):
             k = op[0]
             touched = None
             err = None
-            after_load = False
+            watched = None
+            if k in ("upd", "add", "merge", "bulk") and op[1] in L and L[op[1]].over_open:
+                watched = (op[1], watch(H[op[1]]))
             try:
                 if k == "new":
                     _, r, cap = op
@@ -350,8 +436,14 @@ def run_impl(case, keep=False):
                     _, r, v, c = op
                     v = vin(mode, v)
                     out.model_ops.append(["upd", r, vwire(mode, v), vwire(mode, c)])
+                    pre_len = len(H[r].bins)
+                    pre_hit = any(b[0] == v for b in H[r].bins)
                     res = D.update(H[r], v, c)
                     H[r] = res
+                    post_len = len(res.bins)
+                    ctx_hits.append("upd:exact-hit" if pre_hit else "upd:insert" if post_len == pre_len + 1 else
+                                    "upd:full(in-place or insert + 1 merge)" if post_len == pre_len else
+                                    "upd:insert + %s merges" % ("2" if pre_len + 1 - post_len == 2 else ">2"))
                     L[r].put(v, c)
                     R[r].update(v, c)
                     touched = r
@@ -393,27 +485,32 @@ def run_impl(case, keep=False):
                         hi2 = hi if mode == "q" else float(hi)
                         R[r].min, R[r].max = _omin(R[r].min, lo2), _omax(R[r].max, hi2)
                         touched = r
-                elif k == "dl":
-                    _, r, s = op
-                    out.model_ops.append(["dl", r, s])
+                elif k in ("dl", "ld2"):
+                    r, targets = op[1], op[2:]
+                    for s in targets:
+                        out.model_ops.append(["dl", r, s])
                     before = snap_impl(mode, H[r]) if H[r].bins else None
                     d = H[r].dump()
-                    h2 = D.load(d["bins"], d["min"], d["max"])
+                    loaded = [D.load(d["bins"], d["min"], d["max"]) for _ in targets]  # one dump, one or two loads
                     if mode == "f":
                         L[r].f128 = True
-                    H[s] = h2
-                    L[s] = L[r].copy()
-                    L[s].cap = int(h2._bin_count)
-                    L[s].loaded_with = len(h2.bins)
-                    R[s] = R[r].copy()
-                    R[s].cap = int(h2._bin_count)
+                    got_all = [("dumped histogram changed by dump()", snap_impl(mode, H[r]))]
+                    for s, h2 in zip(targets, loaded):
+                        H[s] = h2
+                        L[s] = L[r].copy()
+                        L[s].cap = int(h2._bin_count)
+                        L[s].loaded_with = len(h2.bins)
+                        L[s].over_open = len(h2.bins) > int(h2._bin_count)
+                        R[s] = R[r].copy()
+                        R[s].cap = int(h2._bin_count)
+                        got_all.append(("loaded histogram differs from the dumped one", snap_impl(mode, h2)))
                     # dump/load preserves bins and bounds (of the dumped histogram, and the dump does not change it)
-                    now_r, now_s = snap_impl(mode, H[r]), snap_impl(mode, h2)
-                    for what, got in (("dumped histogram changed by dump()", now_r), ("loaded histogram differs from the dumped one", now_s)):
+                    for what, got in got_all:
                         if not (same_bins(mode, before[0], got[0]) and same_val(mode, before[1], got[1]) and same_val(mode, before[2], got[2])):
                             out.fail = ("dumpload: " + what, {"before": before, "after": got}, step)
-                    touched = s
-                    after_load = True
+                    for _ in targets[1:]:
+                        out.outs.append("ok")  # one implementation step, two model steps
+                    touched = targets[-1]
                 else:
                     raise InfraError("bad op %r" % (op,))
             except InfraError:
@@ -423,16 +520,29 @@ def run_impl(case, keep=False):
             if err is not None:
                 out.outs.append(["err", err])
                 # update(count < 1) and dump() of an empty histogram raise ValueError by construction
-                expected = err == "ValueError" and ((k == "upd" and not (op[3] >= 1)) or (k == "dl" and not H[op[1]].bins))
+                expected = err == "ValueError" and ((k == "upd" and not (op[3] >= 1)) or (k in ("dl", "ld2") and not H[op[1]].bins))
                 if not expected and out.fail is None:
                     out.fail = ("raised: %s raised %s" % (k, err), {"op": k, "error": err,
                                 "empty_operand": bool(k == "add" and not H[op[2]].bins),
-                                "empty_dump": bool(k == "dl" and not H[op[1]].bins)}, step)
+                                "empty_dump": bool(k in ("dl", "ld2") and not H[op[1]].bins)}, step)
                 out.stopped = step
                 break
             out.outs.append("ok")
+            if watched is not None:
+                ins = inserted_since(H[watched[0]], watched[1])
+                Lw = L[watched[0]]
+                if ins is True:
+                    Lw.over_open = False  # that update's _trim loops back to the limit on the unchanged tree
+                    ctx_hits.append("k01:inserting-op-after-over-limit-load")
+                else:
+                    ctx_hits.append("k01:non-inserting-op-above-limit" if ins is False else "k01:insertion-not-observable")
+                if ins is not True or k != "upd":
+                    Lw.ref_excused = True  # an exact-hit / in-place update (may have) run above the limit
+                    Lw.excuse = (Lw.loaded_with, Lw.cap)
             if out.fail is None and touched is not None:
-                bad = check_state(mode, H[touched], L[touched], k, after_load)
+                known = []
+                bad = check_state(mode, H[touched], L[touched], k, known)
+                out.known.extend((cl, d, step) for cl, d in known)
                 if bad is None and not R[touched].tie:
                     # reference clause: unique closest pair at every step so far
                     ib = snap_impl(mode, H[touched])[0]
@@ -441,8 +551,22 @@ def run_impl(case, keep=False):
                         if not same_bins(mode, ib, rb, loose=True):
                             out.f128_divergence = True
                     elif not same_bins(mode, ib, rb):
-                        bad = ("reference: bins differ from the reference algorithm although no tie occurred",
-                               {"impl": ib, "reference": rb, "loaded_with": L[touched].loaded_with, "limit": int(H[touched]._bin_count)})
+                        ex = L[touched].excuse or (L[touched].loaded_with, int(H[touched]._bin_count))
+                        d = {"impl": ib, "reference": rb, "loaded_with": ex[0], "limit": ex[1],
+                             "noninserting_update_above_limit": L[touched].ref_excused}
+                        cl = "reference: bins differ from the reference algorithm although no tie occurred"
+                        if L[touched].ref_excused and k01_detail("reference", d):
+                            out.known.append((cl, d, step))
+                        else:
+                            bad = (cl, d)
+                if bad is None and mode == "q" and L[touched].ref_excused and not L[touched].over_open:
+                    # back within the limit after a K01 episode: the reference clause is judged again from this state on
+                    hh = H[touched]
+                    R[touched].bins = [(v, int(f)) for v, f in hh.bins]
+                    R[touched].min, R[touched].max, R[touched].tie = hh.min, hh.max, False
+                    L[touched].ref_excused, L[touched].excuse = False, None
+                    out.model_ops.append(["rsync", touched])
+                    ctx_hits.append("k01:reference-rebased-after-episode")
                 if bad is not None:
                     out.fail = (bad[0], bad[1], step)
             if out.fail is not None:
@@ -506,6 +630,9 @@ def compare_with_model(ctx, case, out, mline_out):
                 continue
             if not (same_bins(mode, fb, isnap[0]) and same_val(mode, fmin, isnap[1]) and same_val(mode, fmax, isnap[2])):
                 return {"step": step, "impl": isnap, "model": [fb, fmin, fmax]}
+        elif op[0] == "rsync":
+            if mo != ["ok"]:
+                raise InfraError("model rejected rsync: %r" % (mo,))
         else:
             io = next(impl_outs, None)
             m = "ok" if mo == ["ok"] else mo
@@ -548,6 +675,10 @@ def valid_case(c):
             if len(op) != 3 or op[1] not in regs or not isinstance(op[2], int) or op[2] in regs:
                 return False
             regs[op[2]] = True
+        elif k == "ld2":
+            if len(op) != 4 or op[1] not in regs or not all(isinstance(x, int) for x in op[2:]) or op[2] == op[3] or op[2] in regs or op[3] in regs:
+                return False
+            regs[op[2]] = regs[op[3]] = True
         else:
             return False
     return True
@@ -577,6 +708,14 @@ def evaluate(ctx, cases):
         n_upd = sum(1 for op in c["prog"] if op[0] in ("upd", "bulk"))
         ctx.case(c, nontrivial=n_upd >= 2)
         record(ctx, c, o)
+        seen_kinds = set()
+        for clause, detail, step in o.known:
+            if clause in seen_kinds:
+                continue
+            seen_kinds.add(clause)
+            ck = dict(c)
+            ck["prog"] = c["prog"][: step + 1]
+            ctx.fail(ck, clause, impl=None, model=None, detail=detail)
         if o.fail is not None:
             clause, detail, step = o.fail
             kind = _kind(clause)
@@ -626,6 +765,8 @@ def record(ctx, c, o):
     else:
         ctx.hit("history-without-tie")
     ctx.hit("family:" + c.get("family", "?"))
+    for h_ in o.hits:
+        ctx.hit(h_)
 
 
 # --------------------------------------------------------------------------- generators
@@ -650,7 +791,7 @@ def gen_value(rng, fam):
     if fam == "negative":
         return rng.uniform(-50, 50) if rng.random() < 0.7 else -float(rng.randint(0, 20))
     if fam == "integral":
-        return float(rng.randint(-200, 200))
+        return float(rng.randint(-200, 200)) if rng.random() < 0.7 else rng.randint(-200, 200)  # sometimes a Python int
     if fam == "wide":
         return rng.choice([-1, 1, 1]) * 10 ** rng.uniform(-9, 12)
     return round(rng.uniform(-5, 5), 1)
@@ -779,6 +920,127 @@ def dl_heavy_case(ctx, mode=None):
     return {"mode": mode, "prog": prog, "family": "dl-heavy:" + fam, "snap_every": 7}
 
 
+def over_limit_load_case(ctx, mode=None):
+    """load() of a histogram that holds more bins than load()'s limit (configured maximum 51..64, more than the default
+    limit of bins when dumped; also exactly at / one past the limit), then updates that hit a centre exactly, fall next
+    to one (in place), or insert a new bin (new minimum / maximum / far inside a gap), `+`, bulk loads and a second
+    dump/load: the loaded histogram is above its limit (open finding K01) exactly until the first inserting update,
+    whose _trim must loop back to the limit — a second use of `_trim` with more than one bin to remove."""
+    rng = ctx.rng
+    mode = mode or ("f" if rng.random() < 0.5 else "q")
+    default = gen_const("distogram.default_bin_count", 50)
+    cap = rng.choice([default + 1, default + 2, 64, rng.randint(default + 1, 64), rng.randint(default + 1, 64)])
+    nb = rng.choice([default, default + 1, default + 2, cap, cap, rng.randint(default, cap)])  # bins when dumped
+    nb = min(nb, cap)
+    shape = rng.choice(["quadratic", "random", "steps"])
+    if shape == "quadratic":
+        a, b = rng.randint(1, 5), rng.randint(0, 9)
+        pts = [a * i * i + b * i + rng.choice([0, 0, 1]) for i in range(nb)]
+    elif shape == "random":
+        pts = rng.sample(range(-4000, 4000), nb)
+    else:
+        x, pts = rng.randint(-50, 50), []
+        for i in range(nb):
+            pts.append(x)
+            x += rng.choice([2, 3, 5, 8, 13, 21, 34]) + i % 3
+    pts = sorted(set(pts))
+    scale = 1 if mode == "q" else rng.choice([1.0, 0.5, 0.125, 3.0])
+
+    def val(x, frac=None):
+        if mode == "q":
+            return [int(x * frac[1] + frac[0]), frac[1]] if frac else int(x)
+        return float(x) * scale + (float(frac[0]) / frac[1] * scale if frac else 0.0)
+
+    order = list(pts)
+    rng.shuffle(order)
+    prog = [["new", 0, cap]]
+    for x in order:
+        prog.append(["upd", 0, val(x), gen_count(rng) if rng.random() < 0.3 else 1])
+    extra = rng.choice([0, 0, 0, 1, 3])  # sometimes the source was already trimming at its own limit
+    for _ in range(extra if len(pts) >= cap else 0):
+        prog.append(["upd", 0, val(rng.choice(pts), (1, 2)), 1])
+    prog.append(["dl", 0, 1])
+    lo, hi = pts[0], pts[-1]
+    reg, nxt = 1, 2
+    for _ in range(rng.randint(1, 9)):
+        r = rng.random()
+        if r < 0.25:  # exact hit (the centre is still there unless the source trimmed)
+            prog.append(["upd", reg, val(rng.choice(pts)), gen_count(rng)])
+        elif r < 0.45:  # next to a centre, closer than any pair: in place
+            prog.append(["upd", reg, val(rng.choice(pts[1:-1] or pts), (rng.choice([1, -1]), rng.choice([4, 8, 64]))), gen_count(rng)])
+        elif r < 0.8:  # a new bin: new minimum / maximum / inside the widest gap
+            how = rng.random()
+            if how < 0.3:
+                lo -= rng.randint(1, 500)
+                prog.append(["upd", reg, val(lo), gen_count(rng)])
+            elif how < 0.6:
+                hi += rng.randint(1, 500)
+                prog.append(["upd", reg, val(hi), gen_count(rng)])
+            else:
+                g, i = max((pts[i + 1] - pts[i], i) for i in range(len(pts) - 1))
+                prog.append(["upd", reg, val(pts[i], (g * rng.choice([3, 4, 5]), 8)), gen_count(rng)])
+        elif r < 0.87:
+            b = nxt
+            nxt += 1
+            prog.append(["new", b, rng.choice([3, 8, default, 64])])
+            for _ in range(rng.randint(0, 4)):
+                prog.append(["upd", b, val(rng.choice(pts) if rng.random() < 0.5 else rng.randint(lo - 50, hi + 50)), gen_count(rng)])
+            if rng.random() < 0.6:
+                prog.append(["add", reg, b])
+            else:
+                prog.append(["add", b, reg])
+                reg = b if rng.random() < 0.5 else reg
+        elif r < 0.93:
+            prog.append(["bulk", reg, [val(rng.choice(pts) if rng.random() < 0.5 else rng.randint(lo - 50, hi + 50)) for _ in range(rng.randint(1, 6))], "f8"])
+        else:
+            prog.append(["dl", reg, nxt])
+            reg, nxt = nxt, nxt + 1
+    return {"mode": mode, "prog": prog, "family": "over-limit-load", "snap_every": 5}
+
+
+def reuse_case(ctx, mode=None):
+    """One object used again after it was used: the same right operand added to two targets and updated in between,
+    one dump loaded twice (two histograms from one list), a histogram dumped twice, the source updated after its copy
+    was loaded, a sum added again."""
+    rng = ctx.rng
+    mode = mode or ("f" if rng.random() < 0.5 else "q")
+    fam = rng.choice(["dense", "negative", "integral", "grid", "sparse", "repeated"])
+    gv = (lambda: gen_value(rng, fam)) if mode == "f" else (lambda: gen_qvalue(rng, fam))
+    prog, regs = [], []
+
+    def fresh(n_upd):
+        r = len(regs)
+        regs.append(r)
+        prog.append(["new", r, gen_cap(rng) if rng.random() < 0.7 else rng.randint(2, 4)])
+        for _ in range(n_upd):
+            prog.append(["upd", r, gv(), gen_count(rng)])
+        return r
+
+    a, b = fresh(rng.randint(1, 12)), fresh(rng.randint(1, 12))
+    for _ in range(rng.randint(3, 9)):
+        r = rng.random()
+        x, y = rng.sample(regs, 2)
+        if r < 0.3:
+            prog.append([rng.choice(["add", "add", "merge"]), x, y])
+        elif r < 0.5:
+            s, t = len(regs), len(regs) + 1
+            regs.extend([s, t])
+            prog.append(["ld2", x, s, t])
+            for _ in range(rng.randint(1, 4)):
+                prog.append(["upd", rng.choice([s, t, x]), gv(), gen_count(rng)])
+        elif r < 0.6:
+            s, t = len(regs), len(regs) + 1
+            regs.extend([s, t])
+            prog.append(["dl", x, s])
+            prog.append(["upd", rng.choice([x, s]), gv(), 1])
+            prog.append(["dl", x, t])
+        elif r < 0.7:
+            fresh(rng.randint(0, 6))
+        else:
+            prog.append(["upd", x, gv(), gen_count(rng)])
+    return {"mode": mode, "prog": prog, "family": "reuse:" + fam, "snap_every": 1 if len(prog) <= 30 else 5}
+
+
 def zero_extreme_case(ctx, mode=None):
     """`+` (and merge / bulk load / update) around an exact zero bound — the truthiness trap: one operand's true
     minimum (or maximum) is exactly 0 / -0.0 / a numpy zero, it is compressed so that zero is no longer a centre of its
@@ -858,6 +1120,17 @@ BOUNDARY = [
     # adding an empty histogram
     {"mode": "f", "family": "boundary", "prog": [["new", 0, 4], ["upd", 0, 1.0, 1], ["new", 1, 4], ["add", 0, 1], ["upd", 0, 2.0, 1]]},
     {"mode": "f", "family": "boundary", "prog": [["new", 0, 4], ["new", 1, 4], ["upd", 1, 1.0, 1], ["add", 0, 1], ["upd", 0, 2.0, 1]]},
+    # float128 leaking out of dump(): a dumped histogram's centres merged into another (centre vs. recorded bound), and the
+    # same dumped histogram added twice (the second time every centre must be found again)
+    {"mode": "f", "family": "boundary", "prog": [["new", 0, 3], ["upd", 0, 44.62390402418902, 1], ["upd", 0, 10.662594428299123, 1], ["new", 2, 3], ["upd", 2, 49.60734503903603, 385], ["ld2", 0, 3, 4], ["upd", 0, -29.190329069036313, 1], ["add", 2, 0], ["ld2", 0, 5, 6], ["merge", 6, 2]]},
+    {"mode": "f", "family": "boundary", "prog": [["new", 0, 2], ["upd", 0, 1.0, 1], ["upd", 0, 2.0, 2], ["dl", 0, 1], ["upd", 0, 10.0, 1], ["upd", 1, 7.0, 3], ["new", 2, 10], ["add", 2, 0], ["add", 2, 1], ["add", 2, 0], ["merge", 2, 1]]},
+    # load() with one bin fewer than / exactly / one more than / two more than its limit, and with the largest configured
+    # maximum: exact hit, in place, then two inserting updates — above the limit (K01) only until the first of them
+] + [
+    {"mode": m, "family": "boundary", "prog": [["new", 0, 64]] + [["upd", 0, w(3 * i * i + i), 1] for i in range(n)]
+     + [["dl", 0, 1], ["upd", 1, w(14), 2], ["upd", 1, w(15), 1], ["upd", 1, w(3 * n * n + 100), 3], ["upd", 1, w(-7), 1], ["upd", 1, w(9000), 1]]}
+    for n in (49, 50, 51, 52, 64) for m, w in (("q", int), ("f", float))
+] + [
     # in-place shortcut next to bin 0 and next to the last bin
     {"mode": "q", "family": "boundary", "prog": [["new", 0, 3], ["upd", 0, 0, 1], ["upd", 0, 10, 1], ["upd", 0, 20, 1], ["upd", 0, 1, 1], ["upd", 0, 19, 1], ["upd", 0, 11, 1]]},
 ]
@@ -868,10 +1141,18 @@ def run(ctx):
              "Lean faithful machine and on the reference machine; non-trivial = at least two insertions; distinct by canonical JSON")
     ctx.note("assumptions", [
         "numpy.unique / numpy.histogram / ndarray.min/max are parameters: the model is fed the (values, counts) or (edges, counts) numpy produced",
-        "the mean claim above the bulk threshold is relative to the midpoints actually inserted",
-        "equality of the faithful (cached-differences) machine with the reference algorithm is compared on every run, not proved",
+        "the mean claim above the bulk threshold is relative to the midpoints actually inserted (theorem C13.bulk_above_threshold_mean)",
+        "equality of the faithful (cached-differences) machine with the reference algorithm is proved for whole histories in which the "
+        "reference saw a unique closest pair (C13.refines_reference, counts >= 1, successful operations) and compared on every run; "
+        "bisect_left on a sorted list is modelled as a linear scan with the source's key",
+        "open finding C13-K01 is judged exactly as the unchanged tree behaves: a register loaded with more bins than load()'s limit may be "
+        "above the limit, with exactly the loaded number of bins, only until the first update that inserts a bin (observed on the "
+        "implementation's own bin list); its bins may differ from the reference only after an exact-hit / in-place update ran above the limit",
         "after dump() the implementation's bins are numpy.float128: later centroids are compared with the float64 machines at relative tolerance 1e-9 only",
     ])
+    import time as _t
+    t0 = _t.time()
+    phases = {}
     # witnesses of repaired defects run as ordinary corpus cases (a reverted fix fails here first)
     for k in ctx.known:
         if k.get("status") == "fixed" and "witness" in k:
@@ -883,6 +1164,8 @@ def run(ctx):
         c = dict(c)
         c.setdefault("snap_every", 1)
         evaluate(ctx, [c])
+    phases["corpus+boundary_s"] = round(_t.time() - t0, 2)
+    t0 = _t.time()
     batch = []
     n_ex = 0
     for c in small_exhaustive(ctx):
@@ -896,15 +1179,20 @@ def run(ctx):
     evaluate(ctx, batch)
     ctx.exhaustive = False
     ctx.note("exhaustive_scope", "update histories up to length %d over 6 values, limits 2..3, exact arithmetic (%d histories); then seeded random programs" % (ctx.scale(4, 5), n_ex))
+    phases["exhaustive_s"] = round(_t.time() - t0, 2)
+    t0 = _t.time()
     n_random = ctx.scale(2500, 28000)
     done = 0
-    while done < n_random and ctx.time_left() > ctx.scale(5, 170):
-        cases = [random_case(ctx) for _ in range(84)] + [dl_heavy_case(ctx) for _ in range(8)] + [zero_extreme_case(ctx) for _ in range(8)]
+    while done < n_random and ctx.time_left() > ctx.scale(12, 170):
+        cases = ([random_case(ctx) for _ in range(74)] + [dl_heavy_case(ctx) for _ in range(8)] + [zero_extreme_case(ctx) for _ in range(8)]
+                 + [over_limit_load_case(ctx) for _ in range(4)] + [reuse_case(ctx) for _ in range(6)])
         evaluate(ctx, cases)
         done += len(cases)
         if ctx.violations:
             break
     ctx.note("random_programs", done)
+    phases["random_s"] = round(_t.time() - t0, 2)
+    ctx.note("phase_seconds", phases)
     settle_mirror(ctx)
 
 
@@ -922,7 +1210,8 @@ def intensify(ctx):
     t_end = ctx.time_left() - 5
     n = 0
     while ctx.time_left() > max(5, t_end - 50) and n < 3000 and not ctx.violations:
-        evaluate(ctx, [random_case(ctx) for _ in range(80)] + [dl_heavy_case(ctx) for _ in range(10)] + [zero_extreme_case(ctx) for _ in range(10)])
+        evaluate(ctx, [random_case(ctx) for _ in range(74)] + [dl_heavy_case(ctx) for _ in range(10)] + [zero_extreme_case(ctx) for _ in range(10)]
+                 + [over_limit_load_case(ctx) for _ in range(6)])
         n += 100
 
 
@@ -934,10 +1223,12 @@ def replay(ctx, case):
 
 
 def _k01(case, failure):
-    d = failure.get("detail") or {}
-    return (_kind(failure["clause"]) in ("capacity", "reference") and isinstance(d, dict)
-            and d.get("loaded_with") is not None and d.get("limit") is not None and d["loaded_with"] > d["limit"]
-            and any(op[0] == "dl" for op in case["prog"]))
+    """C13-K01, exactly as the unchanged tree behaves: a register that load() gave more bins than its limit is above
+    the limit with exactly the loaded number of bins until the first update that inserts a bin (capacity); once an
+    exact-hit / in-place update has run above the limit its bins differ from the reference (reference).  A register
+    that is above the limit *after* an inserting update is a new violation."""
+    return (any(op[0] in ("dl", "ld2") for op in case["prog"])
+            and k01_detail(_kind(failure["clause"]), failure.get("detail")))
 
 
 KNOWN_PREDICATES = {"load_drops_configured_limit": _k01}
